@@ -175,8 +175,12 @@ class ConstantScoreQuery(WrappingQuery):
 
         context = context or SearchContext()
         m = self.child.matcher(searcher, context)
-        if context.needs_current or isinstance(m, matching.NullMatcherClass):
+        if isinstance(m, matching.NullMatcherClass):
             return m
+        elif context.needs_current:
+            # Keep the child in the tree (the collector wants to look at the
+            # current match) but still give every document the constant score
+            return matching.ConstantScoreWrapperMatcher(m, self.score)
         else:
             ids = array("I", m.all_ids())
             return matching.ListMatcher(ids, all_weights=self.score,
